@@ -455,6 +455,16 @@ static void DecodeADDSUB(Word Index) {
                     }
                 }
 
+                /* ADD src, dst: shift omitted */
+
+                else if (IsAcc(ArgStr[2].str.p_str)) {
+                    if (DecodeAdr(&ArgStr[2], MModAcc)) {
+                        WAsmCode[0] = 0xf400 | (Index << 5) | (SrcAcc << 9) | (*AdrVals << 8);
+                        CodeLen     = 1;
+                    }
+                    break;
+                }
+
                 /* distinguish variants of shift specification: */
 
                 if (!as_strcasecmp(ArgStr[2].str.p_str, "ASM")) {
